@@ -73,9 +73,11 @@ fn classify(shape: u64, len2: usize, m: M) -> Obs {
         _ => 64,
     };
     let intact = body_diff(mid(shape, seq), want_len, &blob.0).is_none();
+    // every message that carries a region carries its own: the target's, or the survivor's per message
     let att_ok = match att {
         None => true,
-        Some((_t, g)) => &g[..] == &body(mid(shape, 77), 5000)[..],
+        Some((_t, g)) if seq == 2 => &g[..] == &body(mid(shape, 77), 5000)[..],
+        Some((_t, g)) => &g[..] == &body(mid(shape, 77 + seq), 3000 + seq as usize)[..],
     };
     Obs::Msg { seq, intact, att_ok, len: blob.0.len() }
 }
@@ -101,6 +103,7 @@ pub fn run_one(shape: u64, len: usize, att: bool, survivor: bool, observer: u8, 
         .expect("spawn crasher");
     let (_b, btx) = server.accept().expect("accept");
     let surv = if survivor { Some(tx.clone()) } else { None };
+    let surv_att = att;
     btx.send(tx).expect("hand over sender");
     drop(btx);
 
@@ -244,8 +247,18 @@ pub fn run_one(shape: u64, len: usize, att: bool, survivor: bool, observer: u8, 
         cd2.store(true, Ordering::SeqCst);
         let mut surv_errs = Vec::new();
         if let Some(s) = surv {
+            let mut kept = Vec::new();
             for seq in [10u32, 11] {
-                if let Err(e) = s.send((seq, Blob(body(mid(shape, seq), 64)), None)) {
+                // with an attachment-carrying target, the survivor's messages carry attachments of
+                // their own (what the interrupted message brought along must not show up in them)
+                let a: Att = if surv_att {
+                    let (t, r) = must("channel", ipc::channel::<u64>());
+                    kept.push(r);
+                    Some((t, IpcSharedMemory::from_bytes(&body(mid(shape, 77 + seq), 3000 + seq as usize))))
+                } else {
+                    None
+                };
+                if let Err(e) = s.send((seq, Blob(body(mid(shape, seq), 64)), a)) {
                     surv_errs.push(format!("survivor send {}: {}", seq, e));
                 }
             }
